@@ -46,7 +46,15 @@ theorem renderN_elem (tag : Name) (body : List Node) :
       | none =>
         (renderL inl files J rng body st).bind fun r => .ok (.start tag :: r.1 ++ [.stop tag], r.2)
       | some (idx, mb) =>
-        (renderL inl files J ⟨rng.lo, some (idx + 1), false⟩ body st).bind fun r => J ⟨idx + 1, none, false⟩ mb r.2 := rfl
+        (renderL inl files J ⟨rng.lo, some (idx + 1), false⟩ body st).bind fun r =>
+          (J ⟨idx + 1, none, false⟩ mb { r.2 with sel := r.1 :: r.2.sel }).bind fun r' =>
+            .ok (r'.1, { r'.2 with sel := r'.2.sel.tail }) := rfl
+
+theorem renderN_select :
+    renderN inl files J rng .select st =
+      match st.sel with
+      | [] => .err .undefined
+      | c :: _ => J rng (evsToNodes c) st := rfl
 
 theorem renderN_cond (c : Cond) (body : List Node) :
     renderN inl files J rng (.cond c body) st =
@@ -130,6 +138,7 @@ inductive PrepL (T : List Name) (files : Files) : Bool → List Node → List No
   | text {z s r r'} : PrepL T files z r r' → PrepL T files z (.text s :: r) (.text s :: r')
   | var {z x r r'} : PrepL T files z r r' → PrepL T files z (.var x :: r) (.var x :: r')
   | call {m r r'} : PrepL T files false r r' → PrepL T files false (.call m :: r) (.call m :: r')
+  | select {z r r'} : PrepL T files z r r' → PrepL T files z (.select :: r) (.select :: r')
   | elem {z t b b' r r'} : PrepL T files (z || decide (t ∈ T)) b b' → PrepL T files z r r' →
       PrepL T files z (.elem t b :: r) (.elem t b' :: r')
   | cond {z c b b' r r'} : PrepL T files z b b' → PrepL T files z r r' →
@@ -160,6 +169,7 @@ theorem PrepL.append {T files z a a' b b'} (ha : PrepL T files z a a') (hb : Pre
   | text _ ih => exact .text (ih hb)
   | var _ ih => exact .var (ih hb)
   | call _ ih => exact .call (ih hb)
+  | select _ ih => exact .select (ih hb)
   | elem h1 _ _ ih => exact .elem h1 (ih hb)
   | cond h1 _ _ ih => exact .cond h1 (ih hb)
   | loop h1 _ _ ih => exact .loop h1 (ih hb)
@@ -171,6 +181,76 @@ theorem PrepL.append {T files z a a' b b'} (ha : PrepL T files z a a') (hb : Pre
   | inlineMissing hr hf h1 _ _ ih =>
     rw [List.cons_append, List.append_assoc]
     exact .inlineMissing hr hf h1 (ih hb)
+
+
+
+mutual
+def plainN : Node → Bool
+  | .text _ => true
+  | .elem _ b => plainL b
+  | _ => false
+termination_by structural n => n
+def plainL : List Node → Bool
+  | [] => true
+  | n :: ns => plainN n && plainL ns
+termination_by structural l => l
+end
+
+theorem plainL_append {a b : List Node} (ha : plainL a = true) (hb : plainL b = true) : plainL (a ++ b) = true := by
+  induction a with
+  | nil => exact hb
+  | cons n ns ih =>
+    simp only [plainL, Bool.and_eq_true] at ha
+    simp only [List.cons_append, plainL, Bool.and_eq_true]
+    exact ⟨ha.1, ih ha.2⟩
+
+theorem plainL_reverse {a : List Node} (ha : plainL a = true) : plainL a.reverse = true := by
+  induction a with
+  | nil => rfl
+  | cons n ns ih =>
+    simp only [plainL, Bool.and_eq_true] at ha
+    rw [List.reverse_cons]
+    exact plainL_append (ih ha.2) (by simp [plainL, ha.1])
+
+theorem evsToNodesAux_plain : ∀ (es : List Ev) (acc : List Node) (st : List (List Node)),
+    plainL acc = true → (∀ l ∈ st, plainL l = true) → plainL (evsToNodesAux es acc st) = true
+  | [], acc, _, ha, _ => plainL_reverse ha
+  | .text s :: es, acc, st, ha, hs => evsToNodesAux_plain es _ st (by simp [plainL, plainN, ha]) hs
+  | .start _ :: es, acc, st, ha, hs =>
+    evsToNodesAux_plain es [] (acc :: st) rfl (by intro l hl; rcases List.mem_cons.mp hl with rfl | h; exact ha; exact hs l h)
+  | .stop t :: es, acc, parent :: st, ha, hs =>
+    evsToNodesAux_plain es _ st
+      (by simp only [plainL, plainN, Bool.and_eq_true]; exact ⟨plainL_reverse ha, hs parent (by simp)⟩)
+      (fun l hl => hs l (List.mem_cons_of_mem _ hl))
+  | .stop _ :: es, acc, [], ha, hs => evsToNodesAux_plain es acc [] ha hs
+
+theorem evsToNodes_plain (es : List Ev) : plainL (evsToNodes es) = true :=
+  evsToNodesAux_plain es [] [] rfl (by intro l hl; simp at hl)
+
+mutual
+theorem prepL_of_plainN {T : List Name} {files : Files} : ∀ (n : Node) (z : Bool) (r : List Node),
+    plainN n = true → PrepL T files z r r → PrepL T files z (n :: r) (n :: r)
+  | .text _, _, _, _, hr => .text hr
+  | .elem t b, z, _, h, hr => .elem (prepL_of_plainL b _ (by simpa [plainN] using h)) hr
+  | .var _, _, _, h, _ => by simp [plainN] at h
+  | .cond _ _, _, _, h, _ => by simp [plainN] at h
+  | .loop _ _ _, _, _, h, _ => by simp [plainN] at h
+  | .defn _ _, _, _, h, _ => by simp [plainN] at h
+  | .call _, _, _, h, _ => by simp [plainN] at h
+  | .matchT _ _, _, _, h, _ => by simp [plainN] at h
+  | .select, _, _, h, _ => by simp [plainN] at h
+  | .include _ _ _ _ _, _, _, h, _ => by simp [plainN] at h
+  | .inlined _, _, _, h, _ => by simp [plainN] at h
+termination_by structural n => n
+theorem prepL_of_plainL {T : List Name} {files : Files} : ∀ (ns : List Node) (z : Bool),
+    plainL ns = true → PrepL T files z ns ns
+  | [], _, _ => .nil
+  | n :: ns, z, h => by
+    simp only [plainL, Bool.and_eq_true] at h
+    exact prepL_of_plainN n z ns h.1 (prepL_of_plainL ns z h.2)
+termination_by structural ns => ns
+end
+
 
 /-! ## the simulation relations -/
 
@@ -197,6 +277,7 @@ structure StRel (T : List Name) (files : Files) (s s' : St) : Prop where
   macros : All2 (fun a b => a.1 = b.1 ∧ PrepL T files false a.2 b.2) s.macros s'.macros
   mts : All2 (fun a b => a.1 = b.1 ∧ a.1 ∈ T ∧ PrepL T files true a.2 b.2) s.mts s'.mts
   cache : CacheInv T files s'.cache
+  sel : s.sel = s'.sel
 
 def RRel (T : List Name) (files : Files) : R → R → Prop
   | .fuel, .fuel => True
@@ -416,6 +497,17 @@ theorem simL {T files} (hload : LoadOK T files) (htx : TextOK files) {J J' : RJ}
       cases s.lookup m <;> rfl
     · rw [h1, h2]
       exact hJ false rR rR b b' s s' hb (.inl ⟨rfl, hn, hf⟩) h
+  | @select z r r' _ ih =>
+    intro rR rI s s' hc h
+    rw [renderL_cons, renderL_cons]
+    refine seq_rel ?_ (fun s1 s1' h1 => ih rR rI s1 s1' hc.tail h1)
+    obtain ⟨he, hn, hf⟩ := hc.head_textual (by simp [textualN])
+    subst he
+    rw [renderN_select, renderN_select, ← h.sel]
+    cases s.sel with
+    | nil => rfl
+    | cons c _ =>
+      exact hJ z rR rR _ _ s s' (prepL_of_plainL _ z (evsToNodes_plain c)) (.inl ⟨rfl, hn, hf⟩) h
   | @elem z t b b' r r' _ _ ihb ih =>
     intro rR rI s s' hc h
     rw [renderL_cons, renderL_cons]
@@ -435,8 +527,12 @@ theorem simL {T files} (hload : LoadOK T files) (htx : TextOK files) {J J' : RJ}
       apply RRel.bind
       · apply ihb _ _ s s' _ h
         exact .inl ⟨rfl, rfl, fun hzz => by simp [hT] at hzz⟩
-      · intro r1 r1' _ hs
-        exact hJ true _ _ mb mb' _ _ hmb (.inl ⟨rfl, rfl, fun hzz => by cases hzz⟩) hs
+      · intro r1 r1' ho hs
+        apply RRel.bind
+        · exact hJ true _ _ mb mb' _ _ hmb (.inl ⟨rfl, rfl, fun hzz => by cases hzz⟩)
+            { hs with sel := by simp [ho, hs.sel] }
+        · intro r2 r2' ho2 hs2
+          exact ⟨ho2, { hs2 with sel := by simp [hs2.sel] }⟩
   | @cond z c b b' r r' _ _ ihb ih =>
     intro rR rI s s' hc h
     rw [renderL_cons, renderL_cons]
